@@ -124,6 +124,37 @@ def run(ctx):
         if bad:
             ctx.violation('torch refract: ' + '; '.join(bad), rec, {'api': 'torch', 'fn': 'refract', 'what': 'refraction_law'})
 
+    # ---------------- mixed batches: one ray beyond the critical angle (flagged NaN) must not spoil the others of the same call.
+    # Run under the watchdog (a non-returning call is C12's subject, not judged here).
+    from ..lib.watchdog import Watchdog
+    wd = Watchdog(20.0)
+    for err_m in (0.01, 1e-4):
+        for nlen_m in (1.0, 2.0):
+            angs = [0.0, 8.0, 17.0, 25.0, 33.0, 39.0, 60.0]
+            az = rng.uniform(0, 2 * math.pi)
+            rays_m = [[[0.1, 0.2, 0.3], [math.sin(math.radians(a)) * math.cos(az), math.sin(math.radians(a)) * math.sin(az), math.cos(math.radians(a))]] for a in angs]
+            nrms_m = [[[0.1, 0.2, 0.3], [0.0, 0.0, nlen_m]] for _ in angs]
+            rec = {'kind': 'refract', 'rays': rays_m, 'normals': nrms_m, 'n1': 1.5, 'n2': 1.0, 'error': err_m, 'name': 'mixed_fan'}
+            st, res = wd.run(rec)
+            ctx.case(('mixed_fan', err_m, nlen_m), True)
+            ctx.count('refract/mixed_batch_with_one_ray_beyond_the_critical_angle')
+            if st != 'ok' or 'exception' in (res or {}):
+                ctx.note('refract did not return / raised for a mixed batch (termination is decided by C12): %s' % (res,))
+                continue
+            outs = np.array(res['out'], dtype=np.float64)
+            for i, a in enumerate(angs[:-1]):
+                o = outs[i, 1]
+                sin1 = math.sin(math.radians(a))
+                sin2 = float(np.linalg.norm(np.cross(o / max(np.linalg.norm(o), 1e-300), [0, 0, 1.0]))) if np.all(np.isfinite(o)) else float('nan')
+                lenerr = abs(float(np.dot(o, o)) - 1)
+                if not np.all(np.isfinite(o)) or lenerr > nlen_m ** 2 * err_m ** 2 * 1.01 + 1e-9 or \
+                        abs(1.5 * sin1 - 1.0 * sin2) > max(2 * err_m * nlen_m * 1.5, 1e-6) + 1e-9:
+                    ctx.violation('torch refract, batch with one ray beyond the critical angle: the ray at %g degrees comes back as %s (|out|^2 - 1 = %.3g, '
+                                  'n1 sin t1 = %.6g, n2 sin t2 = %.6g) for the requested tolerance %g' % (a, o.tolist(), lenerr, 1.5 * sin1, sin2, err_m),
+                                  dict(rec, ray=i), {'api': 'torch', 'fn': 'refract', 'what': 'refraction_law', 'batch': 'mixed'})
+                    break
+    wd.close()
+
     # ---------------- batches: the batched call equals the single calls (both APIs)
     for bs in (2, 3, 4):
         ds = np.array([unit(rng) for _ in range(bs)])
